@@ -119,8 +119,9 @@ def prob_files(c, wd):
     n = len(c["inputs"][0]["obs"])
     for w, inp in enumerate(c["inputs"]):
         d = {"times": [1325376000], "leads": [0], "locs": list(range(1, n + 1)), "lat": [50 + k for k in range(n)], "lon": [10] * n, "elev": [0] * n,
-             "hasObs": True, "obs": inp["obs"], "fcst": [0 if v == "nan" else v for v in inp["obs"]], "pit": inp["pit"],
-             "thresholds": [1, 2], "cdf": [v for pair in zip(inp["c1"], inp["c2"]) for v in pair]}
+             "hasObs": True, "obs": inp["obs"], "fcst": inp["fcst"], "pit": inp["pit"],
+             "thresholds": [1, 2], "cdf": [v for pair in zip(inp["c1"], inp["c2"]) for v in pair],
+             "quantiles": [0.1, 0.5, 0.9], "x": [v for trip in inp["q"] for v in trip]}
         p = os.path.join(wd, "pd%d.txt" % w)
         mat.write_text(p, d)
         paths.append(p)
@@ -158,7 +159,7 @@ def _check_prob_chunk(cases):
     wd = par.workdir()
     out = os.path.join(wd, "pdiagram.png")
     for c in cases:
-        paths = prob_files(c, wd)
+        paths = prob_files(c, wd)[:c.get("files", 2)]
         names = [os.path.basename(p) for p in paths]
         st, fig = _figure(paths, list(c["argv"]), [], out)
         n += 1
@@ -182,8 +183,9 @@ def run(ctx):
     ctx.rule = ("case = (dataset with missing cells or boundary-straddling times, diagram, option variant): standard line/bar plots, obsfcst, qq, "
                 "scatter, against, sort, hist, freq, error, performance; non-trivial = the expected series has more than one point")
     ctx.assumptions = ["figures are compared as matplotlib artist data (Line2D x/y, bar heights), not pixels",
-                       "diagrams not yet transcribed into Diagrams.tla: invreliability, droc, "
-                       "spreadskill, taylor, murphy, economicvalue, bsdecomp, igncontrib, fss, autocorr/autocov, meteo, change, map, rank, impact"]
+                       "fss and autocorr/autocov along -x leadtime / time only (geographic distances are not rational); taylor slices of at most 24 cases",
+                       "meteo, invreliability with -r, spreadskill with -r: on the 12-case probabilistic datasets",
+                       "not transcribed into Diagrams.tla: map, rank, impact views (their crash-freedom is C19's)"]
     res = tlc.run("MC_Diagrams", "MC_Diagrams_C12", tag=ctx.pid + "_det", timeout_s=1500)
     ctx.add_tlc("MC_Diagrams/C12", res, {"Family": "C12"})
     cases = res.emitted
@@ -209,6 +211,10 @@ def run(ctx):
         for site, known, detail, rep in divs:
             ctx.diverge(site, rep, as_implemented=known, detail=detail)
     ctx.traces += len(pcases)
+    kinds = {}
+    for c in cases + pcases:
+        kinds[c["diagram"]] = kinds.get(c["diagram"], 0) + 1
+    ctx.extra["figures_per_diagram"] = kinds
     for c in pcases:
         ctx.nontriv(str((c["argv"], c["inputs"][0]["c1"], c["inputs"][1]["c1"], c["inputs"][0]["obs"][:3])))
     if pcases:
